@@ -41,8 +41,8 @@ pub enum Profile {
 impl Profile {
     fn exe(self) -> PathBuf {
         match self {
-            Profile::Release => PathBuf::from(format!("{VERIF}/target/release/jbkv-reader")),
-            Profile::Dbg => PathBuf::from(format!("{VERIF}/target/dbg/jbkv-reader")),
+            Profile::Release => PathBuf::from(format!("{}/target/release/jbkv-reader", crate::engine::verif_dir())),
+            Profile::Dbg => PathBuf::from(format!("{}/target/dbg/jbkv-reader", crate::engine::verif_dir())),
         }
     }
 }
